@@ -385,6 +385,15 @@ F_C10_PushOutput == ~Urgent => \A i \in Nodes :
            \A k \in 1..Len(N(i).outs) : ~CanPut(E[N(i).outs[k]])
      /\ (N(i).type = "source" /\ S[i].pc = "wait") => \A k \in 1..Len(N(i).outs) : ~CanPut(E[N(i).outs[k]])
 
+\* Leg B for factories: the set of outcomes the design allows at the horizon (counters of every node, number of
+\* items in every edge), printed once per terminal state; the real run of the same configuration must be one of them
+Flat == [i \in 1..(4 * NN + NE) |->
+           IF i <= 4 * NN
+           THEN LET n == ((i - 1) \div 4) + 1 k == (i - 1) % 4 IN
+                CASE k = 0 -> ctr[n].gen [] k = 1 -> ctr[n].disc [] k = 2 -> ctr[n].proc [] OTHER -> ctr[n].recv
+           ELSE NInside(E[i - 4 * NN])]
+ReportOutcome == (now = MaxT /\ ~Urgent) => PrintT(<<"F", cid, Flat>>)
+
 \* C20: finitely many actions per instant
 F_C20_FiniteInstant == steps <= MaxSteps
 =============================================================================
